@@ -450,7 +450,14 @@ def try_paths(prog, f, hf):
             e2 = strip_casts(e)
             if is_finally_cond(fn, locs, e2):
                 return (s,) if HF == truth else ()
-            if e2.get("k") == "call" and e2.get("name") == "handle_exception":
+            forwards = False
+            if e2.get("k") == "call" and e2.get("fn") is not None and e2.get("name") != "handle_exception":
+                # a local closure whose result is handle_exception's result (`return handle_exception(..)`)
+                cal = prog.fn_by_id(fn, e2["fn"])
+                if cal is not None and cal.get("kind") == "lambda":
+                    rets = [r for r in walk(cal["body"]) if r.get("k") == "return" and r.get("e") is not None]
+                    forwards = bool(rets) and all(strip_casts(r["e"]).get("k") == "call" and strip_casts(r["e"]).get("name") == "handle_exception" for r in rets)
+            if e2.get("k") == "call" and (e2.get("name") == "handle_exception" or forwards):
                 if R is None:
                     return (s,)
                 return (s,) if R == truth else ()
